@@ -364,7 +364,10 @@ pub fn child_main(port: u16) -> ! {
     }
     let rt = tokio::runtime::Builder::new_current_thread().enable_all().build().unwrap();
     rt.block_on(async move {
-        let o = Ohkami::new(("/block/:id".GET(block),));
+        async fn whoami() -> String {
+            format!("pid={}", std::process::id())
+        }
+        let o = Ohkami::new(("/block/:id".GET(block), "/whoami".GET(whoami)));
         // `listening` is printed before the bind happens inside howl; the parent retries its connects
         say("listening");
         o.howl(("127.0.0.1", port)).await;
@@ -458,10 +461,21 @@ fn run_sessions(sc: &SessionCase, obs: &mut Obs) {
             if let Ok(Some(_)) = c.proc.try_wait() {
                 break; // bind failed (port in use): try another port
             }
-            if let Ok(s) = std::net::TcpStream::connect(("127.0.0.1", port)) {
-                drop(s);
-                ok = true;
-                break;
+            if let Ok(mut s) = std::net::TcpStream::connect(("127.0.0.1", port)) {
+                // a served request proves that the accept loop runs, i.e. that the interrupt handler is
+                // installed (howl binds first and installs the handler afterwards: a SIGINT in between
+                // would simply kill the process, which is not the subject of the property)
+                let _ = s.set_read_timeout(Some(Duration::from_secs(5)));
+                let _ = s.write_all(b"GET /whoami HTTP/1.1\r\nHost: t\r\nConnection: close\r\n\r\n");
+                let mut got = Vec::new();
+                let _ = s.read_to_end(&mut got);
+                // the answer must come from *our* child (another worker's child may own this port)
+                if String::from_utf8_lossy(&got).contains(&format!("pid={}", c.proc.id())) {
+                    ok = true;
+                    break;
+                } else if !got.is_empty() {
+                    break;
+                }
             }
             std::thread::sleep(Duration::from_millis(2));
         }
